@@ -246,7 +246,7 @@ type streamScenario struct {
 
 func unitEvents(bs *builtStream, rec *recorder) {
 	for _, u := range bs.units {
-		rec.ev(M{"ev": "unit", "id": u.spec.ID, "pid": u.spec.PID, "t": u.spec.T, "items": u.items, "lastpkt": u.lastPkt, "firstpkt": u.firstPk, "npk": u.npk})
+		rec.ev(M{"ev": "unit", "id": u.spec.ID, "pid": u.spec.PID, "t": u.spec.T, "items": u.items, "lastpkt": u.lastPkt, "firstpkt": u.firstPk, "npk": u.npk, "gpk": u.gpk})
 	}
 }
 
@@ -443,5 +443,233 @@ func runMerge(sc *streamScenario, vs []variantSpec, rec *recorder) {
 			fatal("unknown variant %q", v.T)
 		}
 		demuxRunN(s, v)
+	}
+}
+
+// ---------- C19: PacketSkipper and PacketsParser ----------
+
+func hdrDigest(p *astits.Packet) string {
+	h := p.Header
+	s := fmt.Sprintf("%d/%d/%v/%v/%v/%v/%v/%d/", h.PID, h.ContinuityCounter, h.HasAdaptationField, h.HasPayload, h.PayloadUnitStartIndicator,
+		h.TransportErrorIndicator, h.TransportPriority, h.TransportScramblingControl)
+	return digest(append([]byte(s), p.Payload...))
+}
+
+// piOf evaluates the skip predicate on the abstract packet (independent of the library's parse)
+func piOf(pred string, i int, p *pktSpec, seed uint64) bool {
+	switch {
+	case pred == "all":
+		return true
+	case pred == "none":
+		return false
+	case pred == "pusi":
+		return p.PUSI
+	case pred == "nopusi":
+		return !p.PUSI
+	case pred == "cceven":
+		return p.CC%2 == 0
+	case pred == "rai":
+		return p.RAI
+	case pred == "haf":
+		return p.K == "afonly" || (p.K == "" && p.N < 184)
+	case pred == "random":
+		return newRng(seed^uint64(i)*7919).intn(3) == 0
+	case len(pred) > 4 && pred[:4] == "pid:":
+		var pid int
+		fmt.Sscanf(pred[4:], "%d", &pid)
+		return p.PID == pid
+	}
+	fatal("unknown skip predicate %q", pred)
+	return false
+}
+
+func runSkip(sc *streamScenario, rec *recorder) {
+	bs := buildStream(sc.Units, sc.Pkts, sc.PMTPIDs, sc.Seed, sc.Complete)
+	rec.ev(M{"ev": "reset", "t": sc.SID, "kind": "skip", "npkts": len(bs.pkts), "skip": sc.Skip, "parser": sc.Parser})
+	var filtered []byte
+	for i := range bs.pkts {
+		p := &bs.pkts[i]
+		pi := piOf(sc.Skip, i, p, sc.Seed)
+		haf := p.K == "afonly" || (p.K == "" && p.N < 184)
+		rai := p.RAI && haf && (p.K == "afonly" || p.N <= 182)
+		rec.ev(M{"ev": "spkt", "i": i, "pid": pidOfSpec(p), "cc": p.CC & 15, "pusi": p.PUSI && p.K == "", "haf": haf, "rai": rai, "pi": pi})
+		if !pi {
+			filtered = append(filtered, bs.bytes[i*188:(i+1)*188]...)
+		}
+	}
+	unitEvents(bs, rec)
+	bound := len(bs.pkts) + len(bs.units)*4 + 10
+	pass := func(run string, stream []byte, opts ...func(*astits.Demuxer)) {
+		// packets
+		dmx := newDemuxer(bytes.NewReader(stream), sc.Run, opts...)
+		for k := 0; k < bound; k++ {
+			p, err := dmx.NextPacket()
+			if err != nil {
+				if err == astits.ErrNoMorePackets {
+					rec.ev(M{"ev": "peof", "run": run})
+				} else {
+					rec.ev(M{"ev": "perr", "run": run, "msg": err.Error()})
+				}
+				break
+			}
+			rec.ev(M{"ev": "packet", "run": run, "pid": int(p.Header.PID), "hdg": hdrDigest(p)})
+		}
+	}
+	data := func(run string, stream []byte, opts ...func(*astits.Demuxer)) {
+		dmx := newDemuxer(bytes.NewReader(stream), sc.Run, opts...)
+		drainData(dmx, bound, func() int { return 0 }, func(e M) {
+			e["run"] = run
+			if e["ev"] == "deliver" && e["kind"] == "empty" {
+				e["kind"] = "custom"
+			}
+			rec.ev(e)
+		})
+	}
+	// skipper
+	mkSkipper := func(run string, log bool) astits.PacketSkipper {
+		n := 0
+		return func(p *astits.Packet) bool {
+			i := n
+			n++
+			haf := p.Header.HasAdaptationField
+			rai := haf && p.AdaptationField != nil && p.AdaptationField.RandomAccessIndicator
+			if log {
+				rec.ev(M{"ev": "skipcb", "run": run, "i": i, "pid": int(p.Header.PID), "cc": int(p.Header.ContinuityCounter), "pusi": p.Header.PayloadUnitStartIndicator,
+					"haf": haf, "rai": rai, "afparsed": !haf || p.AdaptationField != nil, "nopayload": p.Payload == nil})
+			}
+			if i < len(bs.pkts) {
+				return piOf(sc.Skip, i, &bs.pkts[i], sc.Seed)
+			}
+			return false
+		}
+	}
+	full := bs.bytes
+	pass("base", full)
+	data("base", full)
+	pass("skipA", full, astits.DemuxerOptPacketSkipper(mkSkipper("skipA", true)))
+	data("skipA", full, astits.DemuxerOptPacketSkipper(mkSkipper("skipAd", false)))
+	pass("skipB", filtered)
+	data("skipB", filtered)
+	// packets parser
+	g := 0
+	observer := func(ps []*astits.Packet) ([]*astits.DemuxerData, bool, error) {
+		e := M{"ev": "parsecb", "run": "parserObs", "g": g, "n": len(ps)}
+		g++
+		var pids, ccs []int
+		for _, p := range ps {
+			pids = append(pids, int(p.Header.PID))
+			ccs = append(ccs, int(p.Header.ContinuityCounter))
+		}
+		e["pids"], e["ccs"] = pids, ccs
+		if len(ps) > 0 {
+			e["pusi"] = ps[0].Header.PayloadUnitStartIndicator
+		}
+		rec.ev(e)
+		return nil, false, nil
+	}
+	data("parserObs", full, astits.DemuxerOptPacketsParser(observer))
+	g2 := 0
+	replacer := func(ps []*astits.Packet) ([]*astits.DemuxerData, bool, error) {
+		k := g2
+		g2++
+		rec.ev(M{"ev": "parsecb", "run": "parserRep", "g": k, "n": len(ps), "pids": []int{}, "ccs": []int{}, "pusi": true})
+		return []*astits.DemuxerData{{PID: uint16(k)}}, true, nil
+	}
+	data("parserRep", full, astits.DemuxerOptPacketsParser(replacer))
+	g3 := 0
+	failing := func(ps []*astits.Packet) ([]*astits.DemuxerData, bool, error) {
+		k := g3
+		g3++
+		if k%3 == 1 {
+			rec.ev(M{"ev": "parsefail", "run": "parserFail", "g": k})
+			return nil, false, errInjected
+		}
+		return nil, false, nil
+	}
+	data("parserFail", full, astits.DemuxerOptPacketsParser(failing))
+}
+
+func pidOfSpec(p *pktSpec) int {
+	if p.K == "null" {
+		return 0x1fff
+	}
+	return p.PID
+}
+
+// ---------- C20: Rewind ----------
+
+func runRewind(sc *streamScenario, rec *recorder) {
+	bs := buildStream(sc.Units, sc.Pkts, sc.PMTPIDs, sc.Seed, sc.Complete)
+	rec.ev(M{"ev": "reset", "t": sc.SID, "kind": "rewind", "npkts": len(bs.pkts), "psize": sc.Run.PSize})
+	unitEvents(bs, rec)
+	bound := len(bs.pkts) + len(bs.units)*4 + 10
+	rg := newRng(sc.Seed ^ 0x4242)
+	// run 0: a fresh demuxer
+	total := 0
+	rec.ev(M{"ev": "variant", "r": 0, "k": -1, "api": "data", "again": -1})
+	{
+		dmx := newDemuxer(bytes.NewReader(bs.bytes), sc.Run)
+		drainData(dmx, bound, func() int { return 0 }, func(e M) {
+			e["run"] = 0
+			if e["ev"] != "eof" {
+				total++
+			}
+			rec.ev(e)
+		})
+	}
+	npk := len(bs.pkts)
+	type plan struct {
+		k     int
+		api   string
+		again int
+	}
+	var plans []plan
+	maxK := total + 1
+	step := 1
+	if sc.Run.API == "sample" && maxK > 10 {
+		step = maxK / 10
+	}
+	for k := 0; k <= maxK; k += step {
+		plans = append(plans, plan{k, "data", -1})
+	}
+	for k := 0; k <= npk+1; k += 1 + npk/8 {
+		plans = append(plans, plan{k, "packet", -1})
+	}
+	plans = append(plans, plan{rg.intn(maxK + 1), "mixed", rg.intn(maxK + 1)}, plan{rg.intn(maxK + 1), "data", rg.intn(maxK + 1)})
+	for r, pl := range plans {
+		run := r + 1
+		rec.ev(M{"ev": "variant", "r": run, "k": pl.k, "api": pl.api, "again": pl.again})
+		rd := bytes.NewReader(bs.bytes)
+		dmx := newDemuxer(rd, sc.Run)
+		call := func(i int) {
+			usePacket := pl.api == "packet" || (pl.api == "mixed" && i%2 == 0)
+			safeCall(func() {
+				if usePacket {
+					dmx.NextPacket()
+				} else {
+					dmx.NextData()
+				}
+			})
+		}
+		for i := 0; i < pl.k; i++ {
+			call(i)
+		}
+		rew := func() {
+			var n int64
+			var err error
+			p := safeCall(func() { n, err = dmx.Rewind() })
+			rec.ev(M{"ev": "rewind", "run": run, "n": int(n), "err": errClass(err), "panic": p != nil})
+		}
+		rew()
+		if pl.again >= 0 {
+			for i := 0; i < pl.again; i++ {
+				call(i)
+			}
+			rew()
+		}
+		drainData(dmx, bound, func() int { return 0 }, func(e M) {
+			e["run"] = run
+			rec.ev(e)
+		})
 	}
 }
